@@ -50,6 +50,8 @@ def gen_ops(rng, n):
                 # a duration with ~31 significant bits (more than a float32 holds, far fewer than a double): long calls
                 # timed to sub-millisecond resolution
                 dt = Fraction(rng.randrange(2**25, 2**30) * 2 + 1, 2**12)
+            elif rng.random() < 0.06:
+                dt = Fraction(0)      # a call that takes no measurable time is a completed call like any other: one sample of 0
             elif rng.random() < 0.04:
                 # one enormous sample (a call that blocked): sums over windows that do not contain it stay exact, any
                 # running total that contains it has lost the small ones
